@@ -217,6 +217,11 @@ def run(ctx: core.Ctx):
         ctx.nontrivial.add(json.dumps(steps))
     ctx.sample([e for e in events if e["cid"] == 0][:3])
     ctx.judge("Trace_C10", events, cases=cases, batch=1500)
+    # growth of the specification beyond the listed properties: the documented error paths
+    from .. import errors_drv
+    err = errors_drv.events(ids)
+    ctx.judge("Trace_Errors", err, tag="errors")
+    ctx.extra["error_paths_checked"] = len(err)
     ctx.rule = ("behaviours of System generated by TLC -simulate: sequences of up to `depth` calls (cm, 12 rate "
                 "methods, 6 threshold_at_* x 3 methods, eer, auc, pointwise_cm, ConfusionMatrix metric, swap) with "
                 "argument shapes (), (0,), (3,), (2,0), (2,3), (1,2,2), (2,2); each query also run element by "
